@@ -104,7 +104,11 @@ Fixpoint digits (n : nat) (idx : N) (acc : list jt) : list jt :=
   | S k => digits k (idx / 8) (nth (N.to_nat (idx mod 8)) alphabet T :: acc)
   end.
 
-Definition ctx_of (k : N) : list jt := if k =? 0 then [] else [nth (N.to_nat (k - 1)) alphabet T].
+(* context index: 0 = none, 1..8 = one character, 9..72 = two characters (logical order) *)
+Definition ctx_of (k : N) : list jt :=
+  if k =? 0 then []
+  else if k <=? 8 then [nth (N.to_nat (k - 1)) alphabet T]
+  else [nth (N.to_nat ((k - 9) / 8)) alphabet T; nth (N.to_nat ((k - 9) mod 8)) alphabet T].
 
 Definition blockT := (N * N * N * N * N * list int)%type.
 Definition bstate := (N * list N * list int * nat * list N)%type.
